@@ -1344,7 +1344,8 @@ func (h *Hashgraph) ProcessSigPool() error {
 				"index": bs.Index,
 				"msg":   err,
 			}).Error("Verifying Block signature")
-			return err
+			h.PendingSignatures.Remove(bs.Key())
+			continue
 		}
 		if !valid {
 			bytesBlock, _ := block.Marshal()
